@@ -467,6 +467,24 @@ func genCoreEvents(c *explore.C) Case {
 	return Case{Doc: d, Render: r}
 }
 
+// genCoreStars: full product - two styles whose names may themselves start with '*' x every way an event can
+// refer to them (exact name, '*'-prefixed name, unknown, empty): a reference is resolved by exact name first and
+// only then with the '*' stripped.
+func genCoreStars(c *explore.C) Case {
+	d := coreDoc(c)
+	pair := explore.Pick(c, "style.names", [2]string{"A", "*A"}, [2]string{"A", "B"}, [2]string{"*A", "B"}, [2]string{"Default", "*Default"})
+	d.Styles = nil
+	for i, n := range pair {
+		d.Styles = append(d.Styles, ssa.Style{Name: n, Attrs: map[string]ssa.Value{"Fontname": str("Arial"), "Bold": boo(i == 1)}})
+	}
+	for k := 0; k < 2; k++ {
+		e := ssa.Event{Start: int64(100 * (k + 1)), End: int64(100*(k+1) + 50), Name: "Cher", Lines: [][]ssa.Run{{{Text: "x"}}}}
+		e.Style = explore.Pick(c, "event.style", "A", "*A", "B", "*B", "", "**A", "Default", "*Default")
+		d.Events = append(d.Events, e)
+	}
+	return Case{Doc: d, Render: ssa.DefaultRender(d)}
+}
+
 // genCoreText: full product — text shapes of <=2 lines x <=2 runs x {no block, block} x 4 texts (one ending in a space),
 // break kind, customary and reversed column order.
 func genCoreText(c *explore.C) Case {
